@@ -202,6 +202,9 @@ func runC10(c *engine.Ctx) {
 
 	// ---- R11 ----
 	checkQueuedClosureCaptures(c, "R11")
+
+	// ---- R12 ----
+	checkWrapperCloseFns(c, "R12")
 }
 
 // checkQueuedClosureCaptures: a closure that is stored for later execution (appended to a closeFuncs-like slice field)
@@ -1070,4 +1073,44 @@ func checkRunRollbacks(c *engine.Ctx, rule string) {
 		checkRollback(c, tab, "server/group.TCPGroup.Listen", f, nil, nil)
 	}
 	c.Floor(entries, 9)
+}
+
+// checkWrapperCloseFns: a stream wrapper built with golib's WrapReadWriteCloser(r, w, closeFn) is closed by calling
+// closeFn once. closeFn is a closure; Go closures capture variables, not values, so a closeFn that closes the variable
+// which is then overwritten with the wrapper itself (`x = Wrap(.., func() error { return x.Close() })`) calls the
+// wrapper's own Close, which returns at once because the wrapper is already marked closed: the wrapped connection is
+// never closed through this path (the joined peer never sees end-of-stream, the work connection leaks).
+func checkWrapperCloseFns(c *engine.Ctx, rule string) {
+	c.Rule(rule, "the close function given to WrapReadWriteCloser closes the stream that was wrapped: it captures no variable that is assigned again after the closure was created (in particular not the variable that receives the wrapper)")
+	p := c.P
+	n := 0
+	for _, f := range p.RepoFuncs() {
+		engine.ForEachInstr(f, func(in ssa.Instruction) {
+			call, ok := in.(*ssa.Call)
+			if !ok || !calleeIs(call, "golib/io", "WrapReadWriteCloser") || len(call.Call.Args) != 3 {
+				return
+			}
+			n++
+			key := fmt.Sprintf("%s>close-fn", p.FuncName(f))
+			mc, ok := call.Call.Args[2].(*ssa.MakeClosure)
+			if !ok {
+				c.Hold(key, call.Pos(), 1, []string{"close function: " + engine.Describe(call.Call.Args[2])}, "close function is a method value of the wrapped connection")
+				return
+			}
+			bad := ""
+			for _, b := range mc.Bindings {
+				if al, ok := b.(*ssa.Alloc); ok {
+					if w := writtenAfter(mc, al); w != nil {
+						bad = fmt.Sprintf("the close function captures variable %s, which is assigned again at %s after the closure was created: at Close time it refers to the later value (the wrapper itself), so the wrapped stream is never closed", al.Comment, p.Pos(posOf(w)))
+					}
+				}
+			}
+			if bad != "" {
+				c.Violate(key, call.Pos(), nil, "%s", bad)
+			} else {
+				c.Hold(key, call.Pos(), len(mc.Bindings), nil, "close function closes a variable that still holds the wrapped stream")
+			}
+		})
+	}
+	c.Floor(n, 6)
 }
